@@ -33,6 +33,10 @@ def spec (src : Bytes) (items : List (String × Nat × Bytes)) (j : Json) : Bool
   let ht := J.bool (J.get j "has_tree")
   let he := J.bool (J.get j "has_err")
   if ht == he then return (false, s!"parser returned tree={ht} error={he}")
+  -- a text the lexer refuses (its item stream ends in an ERROR item) is not a program, whatever the
+  -- items before the fault spell
+  if ht && items.any (fun it => it.1 == "ERROR") then
+    return (false, "the lexer refuses the text (ERROR item) but the parser returned a tree and no error")
   if he then
     let e := J.get j "err"
     if J.bool (J.get e "plain") then return (false, s!"position-less error: {J.str (J.get e "msg")}")
